@@ -1,10 +1,10 @@
 (* C12 -- A pooled message has one owner at a time.
-   Statements only; proofs in Pool/Proofs.v, Pool/Paths.v, Pool/Writer.v, Pool/Use.v, Pool/Expiry.v, Pool/BoundedProofs.v.  PARTIAL by design: the
+   Statements only; proofs in Pool/Proofs.v, Pool/Paths.v, Pool/Writer.v, Pool/Use.v, Pool/Expiry.v, Pool/HandOver.v, Pool/BoundedProofs.v.  PARTIAL by design: the
    theorems cover the ownership automaton, the library's paths as modelled in Pool/Model.v, every n-ary
    interleaving of them and the pool's counter; that the Go code has no OTHER path is established only by
    running the monitor on the lifecycle traces of real executions. *)
 From Coq Require Import ZArith NArith List Bool.
-From GoCoap Require Import Pool.Model Pool.Spec Pool.Proofs Pool.Writer Pool.Paths Pool.Use Pool.Expiry Pool.Bounded Pool.BoundedProofs.
+From GoCoap Require Import Pool.Model Pool.Spec Pool.Proofs Pool.Writer Pool.Paths Pool.Use Pool.Expiry Pool.HandOverModel Pool.HandOver Pool.Bounded Pool.BoundedProofs.
 Import ListNotations.
 Open Scope Z_scope.
 
@@ -323,4 +323,62 @@ Example C12_instance_expiry :
   (check (x_trace (xrun SwKeep 7 sched (xinit progs))) = 0%N) /\
   (check (x_trace (xrun (SwRelease false) 7 sched (xinit progs))) = 7%N) /\
   (check (x_trace (xrun (SwRelease false) 7 [0; 0; 0; 0; 1; 1]%nat (xinit progs))) = 0%N).
+Proof. vm_compute. repeat split. Qed.
+
+(* ---- round 5: the hand-over of a response to the caller waiting in Do (Pool/HandOverModel.v) ---- *)
+
+(* a receive path that does not touch the message after the channel send (any number of accesses before it), a caller
+   that uses and releases the response whenever it is scheduled, every schedule - accepted, class 0 *)
+Theorem C12_handover_safe : forall c pre sched,
+  accepted (ho_trace (ho_run c sched (ho_init pre 0))) /\ c12_class (ho_trace (ho_run c sched (ho_init pre 0))) = 0%N.
+Proof. exact handover_safe. Qed.
+Print Assumptions C12_handover_safe.
+
+(* ... which is what the code does, for a response in one piece and for one reassembled from blocks *)
+Theorem C12_handover_code_safe : forall c k sched,
+  c12_class (ho_trace (ho_run c sched (ho_init (fst (handover_code k)) (snd (handover_code k))))) = 0%N.
+Proof. exact handover_code_safe. Qed.
+Print Assumptions C12_handover_code_safe.
+
+(* whatever the receive path does later: until it has sent the message the caller is still waiting (accesses before the
+   send are never late) *)
+Theorem C12_handover_caller_waits : forall c pre post sched,
+  ho_handed (ho_r (ho_run c sched (ho_init pre post))) = false -> ho_c (ho_run c sched (ho_init pre post)) = HC0.
+Proof. exact handover_caller_waits. Qed.
+Print Assumptions C12_handover_caller_waits.
+
+(* one access after the send (handleReq evaluating req.Type() after Conn.handle; processReceivedMessage reading the token
+   of the reassembled message after next) is enough: the schedule "receive path up to the send, caller until the message
+   is back in the pool (or refused by a full pool), receive path's next access" reads a released message *)
+Theorem C12_handover_late_read_refuted : forall c pre post, (0 < post)%nat ->
+  c12_class (ho_trace (ho_run c (ho_bad_sched pre) (ho_init pre post))) = 7%N.
+Proof. exact handover_late_read_refuted. Qed.
+Print Assumptions C12_handover_late_read_refuted.
+
+Theorem C12_handover_late_read_refuted_full_pool : forall c pre post, (0 < post)%nat ->
+  c12_class (ho_trace (ho_run c (ho_bad_sched_full pre) (ho_init pre post))) = 7%N.
+Proof. exact handover_late_read_refuted_full_pool. Qed.
+Print Assumptions C12_handover_late_read_refuted_full_pool.
+
+(* ... unnoticed whenever the receive path has made its last access before the caller moves (s1: steps of the receive
+   path only), whatever comes afterwards *)
+Theorem C12_handover_late_read_unnoticed : forall c pre post s1 s2,
+  Forall (fun tid => tid = 0%nat) s1 ->
+  ho_late (ho_r (ho_run c s1 (ho_init pre post))) = 0%nat ->
+  accepted (ho_trace (ho_run c (s1 ++ s2) (ho_init pre post))) /\
+  c12_class (ho_trace (ho_run c (s1 ++ s2) (ho_init pre post))) = 0%N.
+Proof. exact handover_late_read_unnoticed. Qed.
+Print Assumptions C12_handover_late_read_unnoticed.
+
+(* the code as it is under a schedule that runs the caller as early as possible; the variant with a late read of the type
+   under the same schedule (class 7) and under the schedule of a sequential test (receive path first: nothing seen) *)
+Example C12_instance_handover :
+  let sched := [0; 0; 0; 1; 1; 1; 1; 1; 1; 0; 0]%nat in
+  (ho_trace (ho_run 5 sched (ho_init (fst (handover_code HoDirect)) (snd (handover_code HoDirect)))) =
+     [Use 5; Use 5; Hold 5; Unhold 5 true; AppRel 5; Rel 5; Rec 5]) /\
+  (check (ho_trace (ho_run 5 sched (ho_init (fst (handover_code HoReassembled)) (snd (handover_code HoReassembled))))) = 0%N) /\
+  (ho_trace (ho_run 5 sched (ho_init (fst handover_late_type_read) (snd handover_late_type_read))) =
+     [Use 5; Use 5; Hold 5; Unhold 5 true; AppRel 5; Rel 5; Rec 5; Use 5]) /\
+  (check (ho_trace (ho_run 5 sched (ho_init (fst handover_late_type_read) (snd handover_late_type_read)))) = 7%N) /\
+  (check (ho_trace (ho_run 5 [0; 0; 0; 0; 1; 1; 1; 1; 1; 1]%nat (ho_init (fst handover_late_token_read) (snd handover_late_token_read)))) = 0%N).
 Proof. vm_compute. repeat split. Qed.
